@@ -58,6 +58,10 @@ def entity_bytes_flow(ctx, rule):
             continue
         if a["path"] in stream_types:
             for v in a["variants"]:
+                if v in _BR.once_variants(ctx, a):
+                    # the one-shot variant's slot holds the data of a `From<..>` conversion, never entity data (get_range results
+                    # go only into the length-checking stream, above); that it is emptied when polled is C20.R2
+                    continue
                 for f in v["fields"]:
                     ty = f["ty"]
                     if ty == "D" or ty.startswith("std::vec::Vec<D") or ty.startswith("std::collections::VecDeque<D") or ty == "std::option::Option<D>":
